@@ -43,7 +43,7 @@ def tier_table(rep, rule, method, kind, k, extra, modes, call, spec, what, span_
             if seams and got.kind == "ok" and got.value.get("class") == "IntervalTier":
                 from ..floatorder import seam_obligations
 
-                for i, ok, touch, text in seam_obligations(st, [e.items for e in got.value["entries"]]):
+                for i, ok, touch, text in seam_obligations(st, [e.items for e in got.value["entries"]], getattr(I, "path_facts", ())):
                     if ok:
                         out.append(((mode, "seam"), True, "", None))
                     elif touch:
